@@ -443,6 +443,26 @@ struct Corpus {
           P("loop-first", "var g;\nfunc id(val n) is return n\nfunc cnt(val n) is var k;\n{ while " + c + " do g := g - 1; k := g + n; return k }\nproc main() is { g := 6; 0(cnt(2) + cnt(1)) }\n");
         }
       }
+      // F16: conditions the compiler can evaluate itself: every constant form (literal, boolean, val, folded expression, rewritten relation) as the condition of if / while,
+      // alone and combined with a run-time operand through and / or, in main and in a procedure with a frame
+      {
+        std::vector<std::pair<std::string, bool>> K = {{"false", false}, {"true", true}, {"0", false}, {"1", true}, {"5", true}, {"off", false}, {"on", true}, {"big", true}, {"(2 < 1)", false}, {"(1 < 2)", true},
+                                                       {"(1 = 2)", false}, {"(2 = 2)", true}, {"(1 ~= 1)", false}, {"(1 ~= 2)", true}, {"(1 > 2)", false}, {"(2 >= 2)", true}, {"(2 <= 1)", false}, {"(~true)", false}, {"(~off)", true},
+                                                       {"(off and on)", false}, {"(off or on)", true}, {"(on - 1)", false}, {"(on + on)", true}, {"(-on)", true}, {"(big - 70000)", false}};
+        std::string decl = "val off = false; val on = true; val big = 70000;\nvar g;\nfunc id(val n) is return n\n";
+        for (auto &k : K) {
+          const std::string &c = k.first;
+          P("const-cond:while", decl + "proc main() is { g := 3; while " + c + " do { 1('b', 0); g := g + 1; if g > 5 then 0(g) else skip }; 1('e', 0); 0(g) }\n");
+          P("const-cond:if", decl + "proc main() is { g := 3; if " + c + " then 1('t', 0) else 1('f', 0); if " + c + " then skip else g := g + 1; if " + c + " then g := g + 2 else skip; 0(g) }\n");
+          P("const-cond:proc", decl + "proc t(val p) is var l;\n{ l := p; while " + c + " do { l := l + 1; if l > 6 then { 1('x', 0); 0(l) } else skip }; if " + c + " then 0(l + 10) else 0(l + 20) }\nproc main() is { g := 1; t(4) }\n");
+          P("const-cond:func", decl + "func f(val p) is { while " + c + " do return p + 1; if " + c + " then return p + 2 else return p + 3 }\nproc main() is 0(f(4) + f(10))\n");
+          for (const char *rt : {"(g = 3)", "(g = 4)", "(id(g) = 3)"}) for (const char *op : {"and", "or"}) {
+            P("const-cond:mixed", decl + "proc main() is { g := 3; if " + c + " " + op + " " + rt + " then 1('t', 0) else 1('f', 0); if " + rt + " " + op + " " + c + " then 0(1) else 0(2) }\n");
+            P("const-cond:mixed-while", decl + "proc main() is { g := 3; while " + c + " " + op + " " + rt + " do { g := g + 1; if g > 6 then 0(g) else skip }; while " + rt + " " + op + " " + c + " do { g := g + 1; if g > 8 then 0(g + 100) else skip }; 0(g) }\n");
+          }
+          P("const-cond:value", decl + "proc main() is { g := " + c + "; 0((g + g) + (~" + c + ")) }\n");
+        }
+      }
       // F12: every ordered pair (thorough: triple) of simple statements over a vocabulary of assignments and calls whose sources and targets include each
       // constant subscript 0..3 of a global and of a formal array: adjacent-statement interactions (peephole removal of reloads, register reuse)
       {
